@@ -393,3 +393,20 @@ Definition ogroup (r : orow) : list Z := snd r.
 (* the source rows having key k, in source order *)
 Definition rows_with_key (kinds : list kind) (src : list srow) (k : key) : list Z :=
   map fst (filter (fun r => mem_key k (keys_of kinds (snd r))) src).
+
+(* what a cell contributes to a key, as the property states it: a scalar cell its value; a list-valued cell of
+   a list-typed column each of its elements, an empty one ''/0; a non-list value in a list-typed column nothing *)
+Definition elem_of (kd : kind) (c : cell) (a : atom) : Prop :=
+  match kd, c with
+  | KScalar, CAtom a' => a = a'
+  | KScalar, _ => False
+  | _, CSeq l => (l = [] /\ a = empty_value kd) \/ In a l
+  | _, _ => False
+  end.
+
+Definition key_of_cells (kinds : list kind) (cells : list cell) (k : key) : Prop :=
+  Forall2 (fun a kc => elem_of (fst kc) (snd kc) a) k (combine kinds cells).
+
+(* every group-by cell can be read and every scalar one is hashable *)
+Definition cells_ok (kinds : list kind) (cells : list cell) : Prop :=
+  Forall2 (fun kd c => c <> CError /\ (kd = KScalar -> exists a, c = CAtom a)) kinds cells.
